@@ -4,7 +4,6 @@ from .ops_c17 import OPS
 
 PROP, BIN, RUNMOD, RUNFN = "C17", "c17", "RunC17", "run_C17"
 MODES = [True, False]
-LEVEL = "other"   # until the theorems of this property are merged
 
 PRIM = {"u8": (0, 8), "u16": (0, 16), "u32": (0, 32), "u64": (0, 64), "u128": (0, 128), "usize": (0, 64),
         "i8": (1, 8), "i16": (1, 16), "i32": (1, 32), "i64": (1, 64), "i128": (1, 128), "isize": (1, 64)}
